@@ -203,7 +203,15 @@ def main(ctx: Ctx) -> None:
         nonkey = [c for c in cases if c["dest"] not in OPTIONS_AFFECTING_CACHE or c["dest"] in bad_rows]
         key = [c for c in cases if c not in nonkey]
         cases = nonkey + ctx.rng.sample(key, min(10, len(key)))
-    cases = with_contexts(cases, ctx.rng, ctx.quick())
+    targeted = []
+    if bad_rows - {""}:
+        # failing-input search for a broken table_ok: every toggle that changes one of the offending options,
+        # in every surrounding
+        for c in option_cases():
+            if set(changed_options(c)) & bad_rows:
+                targeted += [c, dict(c, base=c["base"] + ["--config-file", "permodule.ini"], ctx="per-module-sections"),
+                             dict(c, base=c["base"] + ["--debug-cache"], ctx="debug-cache")]
+    cases = with_contexts(cases, ctx.rng, ctx.quick()) + targeted
     for c in cases:
         ctx.dist("surroundings", c.get("ctx", "plain"))
     res = sweep(ctx, cases)
